@@ -81,6 +81,7 @@ PROPS["C14"] = dict(
 
 PROPS["C18"] = dict(
     gen=cases.gen_C18,
+    precompare=cases.precompare_conversions,
     # conversions must work the same with checking compiled out (`eq_assume_true` / `eq_assume_false` pick the answer there)
     configs=[(None, "chk"), ("std,devices", "nochk")],
     configs_thorough=[(None, "chk"), ("std,devices", "nochk"), ("libm,chk,devices", "chk nostd"), ("release:std,chk,devices", "chk")],
@@ -207,6 +208,7 @@ PROPS["C06"] = dict(
 
 PROPS["C07"] = dict(
     gen=cases.gen_C07,
+    precompare=cases.precompare_C07,
     configs=[(None, "chk"), ("std,devices", "nochk")],
     oracle=cases.oracle_C07,
     project=cases.project_C07,
